@@ -106,3 +106,49 @@ def no_fabricated_reason(led, rid, ctx):
                           "%s posts a domain change with reason None: conflict analysis would take the "
                           "propagated entry for a decision" % root)
     led.count(rid + ":reason-less posts", m)
+
+
+def swap_remove_skip(led, rid, ctx, progs=("lib", "bin")):
+    """SWAP-REMOVE-SKIP: inside an index loop, `v.swap_remove(i)` / `v.remove(i)` followed on some
+    path by `i += 1` before the index is used again skips the element that moved into position i"""
+    from ..flow import resolver, root_local
+    from ..facts import op_const_int
+    n = 0
+    for pk in progs:
+        p = getattr(ctx, pk)
+        for f in p.fns.values():
+            if "/tests" in f.file:
+                continue
+            rms = [c for c in f.calls if c.name in ("swap_remove", "remove") and len(c.args) == 2 and
+                   ("Vec<" in (c.self_ty or "") or "vec::Vec" in (c.defn or ""))]
+            if not rms:
+                continue
+            cfg = f.cfg
+            for rm in rms:
+                n += 1
+                i = root_local(f, rm.args[1])
+                if i is None or f.local_ty(i) != "usize":
+                    continue
+                # increments of that very local
+                incs = []
+                for b in f.blocks:
+                    for s in b["stmts"]:
+                        if s["s"] == "assign" and s["rv"]["r"] == "binop" and \
+                                s["rv"]["op"].replace("WithOverflow", "") == "Add" and \
+                                op_const_int(s["rv"]["b"]) == 1 and root_local(f, s["rv"]["a"]) == i:
+                            incs.append(b["id"])
+                root = f.parent or f.defn
+                key = "%s:%s(%s)" % (root, rm.name, f.local_name(i) or "_%d" % i)
+                if not incs or not cfg.in_loop(rm.bb):
+                    led.ok(rid, key, rm.span, "no index increment after the removal")
+                    continue
+                hit = cfg.reaches(rm.bb, incs, strict=True)
+                # reaching the increment only through the loop head again (next iteration) is fine:
+                # require a path that does not pass the loop's condition block first
+                heads = [h for h in cfg.loop_heads() if cfg.dominates(h, rm.bb)]
+                direct = hit and cfg.reaches(rm.bb, incs, avoid=heads, strict=True)
+                led.check(not direct, rid, key, rm.span, "the index is not advanced past the moved element",
+                          "`%s(%s)` moves another element into position `%s`, and on a path of the same "
+                          "iteration `%s += 1` follows: the moved element is never examined"
+                          % (rm.name, f.local_name(i) or "i", f.local_name(i) or "i", f.local_name(i) or "i"))
+    led.count(rid + ":vector removals by index", n)
